@@ -112,6 +112,13 @@ def check_c10(ctx, entry, beh, origin, index_kind, fhvariant):
             if o["cutoff"] != exp["cutoff"]:
                 bad.append(("CutoffRestored", "step %d: expected %s observed %s"
                             % (k, exp["cutoff"], o["cutoff"])))
+        if step["op"] in ("predict", "ups") and entry.get("closed") == "last":
+            # naive last-value forecaster: the forecast IS the remembered observation at the cutoff
+            want = [LC.value(exp["cutoff"], exp["cutver"])] * len(exp["times"])
+            if not LC.close(want, o["vals"]):
+                bad.append(("ForecastFromCutoffObservation",
+                            "step %d %s: expected the value remembered at cutoff %d (version %d) = %s, got %s"
+                            % (k, step["op"], exp["cutoff"], exp["cutver"], want, o["vals"])))
         if step["op"] in ("predict", "ups") and exp["twinok"] and (entry["refit"] or not refit_since_fit):
             eff = exp["sfh"]
             ffh = fit_fh if entry["mode"] == "req" else {"steps": [], "rel": True}
